@@ -571,6 +571,34 @@ func runC15(c *core.Ctx) {
 		c.Note("handleConn recovers from panics: %v", hasRecover)
 	})
 
+	c.Clause("D8", func() {
+		// No decode error is dropped: in every UnmarshalBinary method of the coordinator's wire types (one family,
+		// same contract) the error of every call that can fail is tested or returned. A frame whose payload does
+		// not parse (condition expression, iterator options, points) is answered with an error, never run with the
+		// unparsed part silently missing (e.g. a meta query without its WHERE clause).
+		n := 0
+		for _, g := range c.P.FuncsIn(coord) {
+			if g.Decl == nil || g.Decl.Recv == nil || g.Body == nil || g.Decl.Name.Name != "UnmarshalBinary" {
+				continue
+			}
+			k := 0
+			for _, e := range g.Graph().Events {
+				if e.Kind != core.EvCall || e.Call == nil {
+					continue
+				}
+				if !lastIsError(g.Info().TypeOf(e.Call)) {
+					continue
+				}
+				n++
+				k++
+				ok, detail := errUsedPublic(g, e)
+				c.Check("decode-error-surfaces", fmt.Sprintf("%s/%s#%d", g.Name, short(core.CalleeName(e)), k), c.P.Pos(e.Pos()), ok,
+					"the error of a call inside a wire decoder is dropped: the request is accepted with the part that failed to parse missing ("+detail+")")
+			}
+		}
+		c.Floor("fallible calls in the coordinator's UnmarshalBinary family", n, 30)
+	})
+
 	c.Clause("D7", func() {
 		n := connPoisonRule(c, "failed-exchange-poisons-connection")
 		c.Floor("exchange sites on pooled connections", n, 28)
